@@ -901,6 +901,18 @@ func protocolFacts() {
 		strings.Index(blb, "lc.quorumAckTracker.WaitForCommitOffset(ctx, lc.leaderElectionHeadEntryId.Offset)") < strings.Index(blb, "lc.applyAllEntriesIntoDB()") &&
 		strings.Index(blb, "lc.applyAllEntriesIntoDB()") < strings.Index(blb, "lc.status = proto.ServingStatus_LEADER") && strings.Index(blb, "WaitForCommitOffset(") > 0),
 		"server/leader_controller.go: BecomeLeader", "only a node fenced in that very term becomes leader; it serves only after its whole log is quorum-committed and applied")
+	// the follower counts an entry as appended only after its WAL has taken it (a failed append must not turn the
+	// re-delivered entry into a duplicate that is acknowledged without being stored)
+	fcf := parse("server/follower_controller.go")
+	fap := funcDecl(fcf, "followerController", "append")
+	fab := ""
+	if fap != nil {
+		fab = squash(src(fap.Body))
+	}
+	iApp2 := strings.Index(fab, "if err := fc.wal.AppendAsync(req.GetEntry()); err != nil { return err }")
+	iCnt := strings.Index(fab, "fc.lastAppendedOffset = req.Entry.Offset")
+	add("followerCountsEntryAfterWalAppend", "Bool", boolLean(iApp2 >= 0 && iCnt > iApp2 && strings.Count(fab, "fc.lastAppendedOffset = ") == 1),
+		"server/follower_controller.go: (*followerController).append", fmt.Sprintf("WAL append at %d, lastAppendedOffset set at %d", iApp2, iCnt))
 }
 
 // moreFacts collects the facts of the other properties (added per property).
